@@ -175,7 +175,10 @@ OpG == [ Base EXCEPT !.sel = <<"n","g">>, !.kind = "cls", !.pos = <<"x">>, !.npd
                       !.dflt = {<<"x", D("x")>>}, !.api = "external" ]
 OpH == [ Base EXCEPT !.sel = <<"n","h">>, !.pos = <<"x","y">>, !.npd = 1, !.dflt = {<<"y", D("y")>>},
                       !.allow = {"y"}, !.api = "register" ]
-OpConfs == {OpF, OpG, OpH, GinMacro}
+\* a method of the class n.g: called on an instance that the class's configurable builds
+OpM == [ Base EXCEPT !.sel = <<"n","g","s">>, !.kind = "meth", !.pos = <<"p","q">>, !.npd = 2,
+                      !.dflt = {<<"p", D("p")>>, <<"q", N1>>}, !.api = "register", !.deny = {"q"} ]
+OpConfs == {OpF, OpG, OpH, GinMacro, OpM}
 OpRegs == {OpConfs}
 OpValsF == { L1, L2, N1, R(<<"n","g">>, <<>>, "call"), R(<<"n","g">>, <<"a">>, "call"), Pct(<<"W">>),
              <<"list", <<L1, R(<<"n","g">>, <<>>, "bare")>>>> }
@@ -183,7 +186,7 @@ OpValsG == { L1, L2 }
 OpValsM == { L1, L2 }
 OpFilter(sc, c, v) ==
   \/ c.sel = <<"m","f">> /\ v \in OpValsF
-  \/ c.sel \in {<<"n","g">>, <<"n","h">>} /\ v \in OpValsG
+  \/ c.sel \in {<<"n","g">>, <<"n","h">>, <<"n","g","s">>} /\ v \in OpValsG
   \/ c.sel = <<"gin","macro">> /\ v \in OpValsM /\ sc = <<"W">>
 OpBindVals == OpValsF \cup OpValsG \cup OpValsM
 NamesOp == <<"k", "p", "q", "r", "value", "x", "y", "z">>
